@@ -310,7 +310,7 @@ def main():
     run.scope = ("%d seeded valid table collections (<=4 samples, <=4 internal nodes, <=3 breakpoints, gaps, unary, "
                  "polytomies, internal samples) x tree options x navigation histories of length <= 7" % N)
     for k in range(N):
-        t = O.random_tables(run.rng, sites=True, integer_coords=(k % 3 != 0))
+        t = O.random_tables(run.rng, sites=True, integer_coords=(k % 3 != 0), odd_flags=(k % 2 == 0))
         label = "seed=%d case=%d" % (run.seed, k)
         run.case(("ts", k))
         try:
